@@ -711,6 +711,128 @@ def struct_src(t):
     return pre + d + "\n" + m
 
 
+def gen_topcmd(rng, ix):
+    """`#[bpaf(command, <decorations>)] struct C { .. }` used through `external` from an
+    `options` struct: decorations written on the command's own annotation apply to the parser
+    made of its fields (inside the subcommand), the command attributes (short, long, help) to
+    the command itself"""
+    while True:
+        t = gen_struct(rng, ix)
+        if not t.tuple and getattr(t, "external", None) is None and not any(
+                f.kind() == "pos" and f.arity() in ("many", "some") for f in t.fields):
+            break
+    t.kind = "topcmd"
+    t.inner = "C%d" % ix
+    t.inner_fn = "c%d" % ix
+    t.cmd_name = rng.choice([None, "run%d" % ix, "do-it"])
+    t.cmd_short = rng.choice([None, None, "r"])
+    t.cmd_alias = rng.choice([None, None, "alias%d" % ix])
+    t.cmd_help = rng.choice([None, None, "explicit command help %d" % ix])
+    t.usage_fallback = rng.random() < 0.2
+    t.adjacent = rng.random() < 0.15
+    decor = []
+    if rng.random() < 0.6:
+        decor.append(("fallback", "%s::default()" % t.inner))
+    if rng.random() < 0.3:
+        decor.append(("hide",))
+    if rng.random() < 0.3:
+        decor.append(("hide_usage",))
+    if rng.random() < 0.25:
+        decor.append(("custom_usage", "CUSTOM%d" % ix))
+    rng.shuffle(decor)
+    t.decor = decor
+    name = t.cmd_name or kebab(t.inner)
+    inner_vectors = t.vectors
+    vs = []
+    for v in inner_vectors:
+        vs.append([name] + v)
+    for v in inner_vectors[:6]:
+        vs.append(v)
+        vs.append(v + [name])
+    if t.cmd_short:
+        vs += [[t.cmd_short] + v for v in inner_vectors[:6]]
+    if t.cmd_alias:
+        vs += [[t.cmd_alias] + v for v in inner_vectors[:6]]
+    vs += [[], ["--help"], [name], [name, "--help"], [name, name], ["--help", name],
+           [name.upper()], [name[:-1]]]
+    t.vectors = vs
+    return t
+
+
+def topcmd_src(t):
+    d = blocks_to_doc(t.blocks, "")
+    ann = "command" if t.cmd_name is None else "command(%s)" % rust_str(t.cmd_name)
+    anns = [ann]
+    extra = []
+    if t.cmd_short:
+        extra.append("short('%s')" % t.cmd_short)
+    if t.cmd_alias:
+        extra.append("long(%s)" % rust_str(t.cmd_alias))
+    if t.cmd_help:
+        extra.append("help(%s)" % rust_str(t.cmd_help))
+    for slot, text in t.explicit.items():
+        extra.append("%s(%s)" % (slot, rust_str(text)))
+    if t.version == "cargo":
+        extra.append("version")
+    elif t.version == "lit":
+        extra.append('version("9.9.9")')
+    if t.usage_fallback:
+        extra.append("fallback_to_usage")
+    if t.adjacent:
+        extra.append("adjacent")
+    for p in t.decor:
+        if p[0] == "fallback":
+            extra.append("fallback(%s)" % p[1])
+        elif p[0] == "custom_usage":
+            extra.append("custom_usage(%s)" % rust_str(p[1]))
+        else:
+            extra.append(p[0])
+    # the order in which independent annotations are written does not matter
+    anns += extra
+    d += "#[derive(Debug, Clone, PartialEq, Default, Bpaf)]\n#[bpaf(%s)]\n" % ", ".join(anns)
+    d += "pub struct %s {\n" % t.inner
+    for f in t.fields:
+        d += f.derive_src("    ")
+    d += "}\n\n"
+    d += "#[derive(Debug, Clone, PartialEq, Bpaf)]\n#[bpaf(options)]\npub struct %s {\n" % t.name
+    d += "    #[bpaf(external(%s))]\n    inner: %s,\n}\n" % (t.inner_fn, t.inner)
+    m = "pub fn manual_%s() -> OptionParser<%s> {\n" % (t.fn, t.name)
+    m += "    let inner = {\n"
+    idents = []
+    for f in t.fields:
+        ident = rid(f.name)
+        idents.append(ident)
+        m += "        let %s = %s;\n" % (ident, f.manual_src())
+    m += "        construct!(%s { %s })" % (t.inner, ", ".join(idents))
+    for p in t.decor:
+        if p[0] == "fallback":
+            m += ".fallback(%s)" % p[1]
+        elif p[0] == "custom_usage":
+            m += ".custom_usage(%s)" % rust_str(p[1])
+        else:
+            m += ".%s()" % p[0]
+    m += ".to_options()"
+    if t.usage_fallback:
+        m += ".fallback_to_usage()"
+    if t.version == "cargo":
+        m += '.version(env!("CARGO_PKG_VERSION"))'
+    elif t.version == "lit":
+        m += '.version("9.9.9")'
+    m += blocks_to_calls(t.blocks, t.explicit)
+    m += ".command(%s)" % rust_str(t.cmd_name or kebab(t.inner))
+    if t.cmd_short:
+        m += ".short('%s')" % t.cmd_short
+    if t.cmd_alias:
+        m += ".long(%s)" % rust_str(t.cmd_alias)
+    if t.cmd_help:
+        m += ".help(%s)" % rust_str(t.cmd_help)
+    if t.adjacent:
+        m += ".adjacent()"
+    m += "\n    };\n"
+    m += "    construct!(%s { inner }).to_options()\n}\n" % t.name
+    return d + "\n" + m
+
+
 def gen_enum(rng, ix):
     names = Names(rng)
     t = TypeDef()
@@ -965,10 +1087,13 @@ def main():
     os.makedirs(os.path.join(out, "src"), exist_ok=True)
     types = []
     for i in range(n):
-        types.append(gen_struct(rng, i) if rng.random() < 0.6 else gen_enum(rng, i))
+        r = rng.random()
+        types.append(gen_struct(rng, i) if r < 0.5 else gen_topcmd(rng, i) if r < 0.62
+                     else gen_enum(rng, i))
     src = MAIN_HEAD
     for t in types:
-        src += "\n" + (struct_src(t) if t.kind == "struct" else enum_src(t))
+        src += "\n" + (struct_src(t) if t.kind == "struct" else topcmd_src(t)
+                       if t.kind == "topcmd" else enum_src(t))
     src += "\nfn main() {\n    std::panic::set_hook(Box::new(|_| {}));\n"
     src += "    let mut tally = Tally { runs: 0, values: 0, stdout: 0, stderr: 0, mismatches: 0 };\n"
     total = 0
@@ -997,6 +1122,7 @@ def main():
                 '[profile.dev]\nopt-level = 0\ndebug = false\noverflow-checks = true\n')
     meta = {"types": n, "vectors": total,
             "structs": sum(1 for t in types if t.kind == "struct"),
+            "decorated_commands": sum(1 for t in types if t.kind == "topcmd"),
             "enums": sum(1 for t in types if t.kind == "enum")}
     print(json.dumps(meta))
 
